@@ -129,7 +129,7 @@ theorem getSub_some (h : SubHdr) (ns : List String) (fl : Flags) (pre : List Str
     (hc : choice h ns cfg = some v) (ht : v.truthy = true)
     (hf : (fl.fail || fl.single) = true ∨ (explicitOf (lookup h.dest cfg)).isSome = true) :
     ∃ w, getSub h ns fl pre cfg =
-      if fl.fail && h.required && !validName ns v then .error (.nosub (pre ++ [h.dest]))
+      if fl.fail && !validName ns v then .error (.badname (pre ++ [h.dest]))
       else .ok ⟨prunedK (subKeys ns cfg) v (settled h v cfg), some v, [v], w⟩ := by
   unfold choice at hc
   cases he : explicitOf (lookup h.dest cfg) with
@@ -139,7 +139,7 @@ theorem getSub_some (h : SubHdr) (ns : List String) (fl : Flags) (pre : List Str
     refine ⟨false, ?_⟩
     unfold getSub getSubCore
     simp only [he, settled, prunedK, Option.isNone_some, Option.isSome_some, Bool.false_and, truthyO, validNameO]
-    cases fl.fail <;> cases h.required <;> simp [ht]
+    cases fl.fail <;> cases h.required <;> cases hvv : validName ns v <;> simp_all
   | none =>
     simp only [he] at hc
     have hf : (fl.fail || fl.single) = true := by
@@ -155,16 +155,40 @@ theorem getSub_some (h : SubHdr) (ns : List String) (fl : Flags) (pre : List Str
       unfold getSub getSubCore
       simp only [he, hs, settled, prunedK, hf, Option.isNone_none, Option.isSome_none, List.isEmpty_cons, Bool.not_false,
         Bool.and_self, Bool.true_and, if_true, List.head?_cons, Option.map_some, truthyO, ht, validNameO, List.headD_cons]
-      cases fl.fail <;> cases h.required <;> simp
+      cases fl.fail <;> cases h.required <;> cases hvv : validName ns (Val.str a) <;> simp_all
+
+/-- with `fail_no_subcommand`, a selected value that is not a subcommand name is an error whatever it is (fix 96e4fb9) -/
+theorem getSub_fail_invalid (h : SubHdr) (ns : List String) (single : Bool) (mode : Mode) (pre : List String) (cfg : Cfg) (v : Val)
+    (hc : choice h ns cfg = some v) (hv : validName ns v = false) :
+    getSub h ns ⟨true, single, mode⟩ pre cfg = .error (.badname (pre ++ [h.dest])) := by
+  unfold choice at hc
+  cases he : explicitOf (lookup h.dest cfg) with
+  | some u =>
+    simp only [he] at hc
+    cases hc
+    unfold getSub getSubCore
+    simp [he, validNameO, hv]
+  | none =>
+    simp only [he] at hc
+    cases hs : subKeys ns cfg with
+    | nil => simp [hs] at hc
+    | cons a r =>
+      simp only [hs, List.head?_cons, Option.map_some] at hc
+      cases hc
+      unfold getSub getSubCore
+      simp [he, hs, validNameO, hv]
 
 /-- what `handle_subcommands` does for one selected subcommand -/
 def processOne (lay : Mode → P → Cfg) (fl : Flags) (pre : List String) (n : String) (q : P) (cfg : Cfg) : Except Err Cfg :=
-  match mergeLayer fl.mode (lay fl.mode q) n cfg with
+  match checkSettings (pre ++ [n]) (lookup n cfg) with
   | .error e => .error e
-  | .ok cfg1 =>
-    match handle lay fl (pre ++ [n]) q (secOf (lookup n cfg1)) with
+  | .ok _ =>
+    match mergeLayer fl.mode (lay fl.mode q) n cfg with
     | .error e => .error e
-    | .ok inner => .ok (writeBack n inner cfg1)
+    | .ok cfg1 =>
+      match handle lay fl (pre ++ [n]) q (secOf (lookup n cfg1)) with
+      | .error e => .error e
+      | .ok inner => .ok (writeBack n inner cfg1)
 
 theorem handleEach_notin (lay : Mode → P → Cfg) (fl : Flags) (pre : List String) (n : String) :
     ∀ (choices : List (String × P)) (cfg : Cfg), ¬ n ∈ names choices →
@@ -197,13 +221,17 @@ theorem handleEach_single (lay : Mode → P → Cfg) (fl : Flags) (pre : List St
       have hr : ¬ m ∈ names rest := by simp [names] at hnd ⊢; exact hnd.1
       rw [handleEach]
       simp only [findP, if_true, List.contains_cons, List.contains_nil, Bool.or_false, beq_self_eq_true, processOne]
-      cases mergeLayer fl.mode (lay fl.mode q) m cfg with
+      cases checkSettings (pre ++ [m]) (lookup m cfg) with
       | error e => rfl
-      | ok cfg1 =>
+      | ok u =>
         simp only []
-        cases handle lay fl (pre ++ [m]) q (secOf (lookup m cfg1)) with
+        cases mergeLayer fl.mode (lay fl.mode q) m cfg with
         | error e => rfl
-        | ok inner => simp only []; exact handleEach_notin lay fl pre m rest _ hr
+        | ok cfg1 =>
+          simp only []
+          cases handle lay fl (pre ++ [m]) q (secOf (lookup m cfg1)) with
+          | error e => rfl
+          | ok inner => simp only []; exact handleEach_notin lay fl pre m rest _ hr
     · rw [handleEach]
       simp [findP, hm, handleEach_single lay fl pre n rest cfg hnd']
 
@@ -418,68 +446,85 @@ theorem wf_node (i : Info) (h : SubHdr) (choices : List (String × P)) (hw : wf 
 theorem validName_str (ns : List String) (v : Val) (h : validName ns v = true) : ∃ n, v = .str n ∧ n ∈ ns := by
   cases v <;> simp_all [validName]
 
-theorem handle_node_shape (lay : Mode → P → Cfg) (fl : Flags) (pre : List String) (i : Info) (h : SubHdr)
+theorem checkSettings_okSec (key : List String) (o : Option Val) : (checkSettings key o = .ok ()) ↔ okSec o = true := by
+  cases o with
+  | none => simp [checkSettings, okSec]
+  | some v => cases v <;> simp [checkSettings, okSec]
+
+theorem checkSettings_cases (key : List String) (o : Option Val) :
+    (checkSettings key o = .ok () ∧ okSec o = true) ∨ (checkSettings key o = .error (.badsec key) ∧ okSec o = false) := by
+  cases o with
+  | none => simp [checkSettings, okSec]
+  | some v => cases v <;> simp [checkSettings, okSec]
+
+/-- a successful `handle` at a parser with subcommands (final stage).  No hypothesis on the configuration: a value under
+    the subcommand key that is not a subcommand name, or a non-mapping under the selected name, is an error (fixes
+    96e4fb9, adfb1a7), so success itself tells that the level was sane -/
+theorem handle_node_shape (lay : Mode → P → Cfg) (single : Bool) (mode : Mode) (pre : List String) (i : Info) (h : SubHdr)
     (choices : List (String × P)) (cfg c1 : Cfg)
     (hwf : wf (.node i (some h) choices) = true)
-    (hcl : cleanAt h (names choices) cfg = true)
-    (hfs : (fl.fail || fl.single) = true)
-    (hm : fl.mode ≠ .none)
-    (hok : handle lay fl pre (.node i (some h) choices) cfg = .ok c1) :
-    (choice h (names choices) cfg = .none ∧ (fl.fail && h.required) = false ∧ c1 = cfg) ∨
+    (hm : mode ≠ .none)
+    (hok : handle lay ⟨true, single, mode⟩ pre (.node i (some h) choices) cfg = .ok c1) :
+    (choice h (names choices) cfg = .none ∧ h.required = false ∧ c1 = cfg) ∨
     (∃ n q inner1, choice h (names choices) cfg = some (.str n) ∧ findP n choices = some q ∧
-      handle lay fl (pre ++ [n]) q (merge (secOf (lookup n cfg)) (lay fl.mode q)) = .ok inner1 ∧
+      okSec (lookup n cfg) = true ∧
+      handle lay ⟨true, single, mode⟩ (pre ++ [n]) q (merge (secOf (lookup n cfg)) (lay mode q)) = .ok inner1 ∧
       c1 = insert n (.sec inner1) (prunedK (subKeys (names choices) cfg) (.str n) (settled h (.str n) cfg))) := by
   obtain ⟨hd, hne, hnd, _⟩ := wf_node i h choices hwf
-  unfold cleanAt at hcl
-  simp only [Bool.and_eq_true, List.all_eq_true] at hcl
-  obtain ⟨hcd, hcs⟩ := hcl
   rw [handle] at hok
   cases hch : choice h (names choices) cfg with
   | none =>
     left
-    rw [getSub_none h _ fl pre cfg hch] at hok
-    by_cases hr : (fl.fail && h.required) = true
+    rw [getSub_none h _ _ pre cfg hch] at hok
+    by_cases hr : h.required = true
     · simp [hr] at hok
-    · simp only [hr] at hok
-      simp only [Bool.false_eq_true, if_false, List.any_nil, List.filterMap_nil] at hok
+    · simp only [hr, Bool.and_false, Bool.false_eq_true, if_false, List.any_nil, List.filterMap_nil] at hok
       rw [handleEach_nil] at hok
       cases hok
       exact ⟨rfl, by simpa using hr, rfl⟩
   | some v =>
     right
-    have ht := choice_truthy h _ cfg v hne hcd hch
-    obtain ⟨w, hg⟩ := getSub_some h _ fl pre cfg v hch ht (Or.inl hfs)
-    rw [hg] at hok
-    by_cases he : (fl.fail && h.required && !validName (names choices) v) = true
-    · simp [he] at hok
-    · simp only [he, Bool.false_eq_true, if_false] at hok
-      by_cases hv : validName (names choices) v = true
-      · obtain ⟨n, hvn, hn⟩ := validName_str _ v hv
-        subst hvn
-        obtain ⟨q, hq⟩ := findP_some_of_mem n choices hn
-        have hnd' : n ≠ h.dest := fun e => hd (e ▸ hn)
-        simp only [List.any_cons, List.any_nil, hv, Bool.not_true, Bool.or_false, Bool.false_eq_true, if_false,
-          List.filterMap_cons, nameOf, List.filterMap_nil] at hok
-        rw [handleEach_single lay fl pre n choices _ hnd, hq] at hok
-        simp only [processOne] at hok
-        -- the section the layer is merged under
-        have hl : lookup n (prunedK (subKeys (names choices) cfg) (.str n) (settled h (.str n) cfg)) = lookup n cfg := by
-          rw [lookup_prunedK]
-          simp [isStr_self, lookup_settled_other h _ cfg n hnd']
-        have hs : okSec (lookup n (prunedK (subKeys (names choices) cfg) (.str n) (settled h (.str n) cfg))) = true := by
-          rw [hl]; exact hcs n hn
-        rw [mergeLayer_ok fl.mode _ n _ hm hs, hl] at hok
+    by_cases hv : validName (names choices) v = true
+    · obtain ⟨n, hvn, hn⟩ := validName_str _ v hv
+      subst hvn
+      have hn0 : n ≠ "" := by
+        intro e
+        subst e
+        simp at hne
+        exact hne hn
+      have ht : (Val.str n).truthy = true := by simp [Val.truthy, hn0]
+      obtain ⟨w, hg⟩ := getSub_some h _ ⟨true, single, mode⟩ pre cfg (.str n) hch ht (Or.inl rfl)
+      rw [hg] at hok
+      obtain ⟨q, hq⟩ := findP_some_of_mem n choices hn
+      have hnd' : n ≠ h.dest := fun e => hd (e ▸ hn)
+      simp only [hv, Bool.not_true, Bool.and_false, Bool.false_eq_true, if_false, List.any_cons, List.any_nil,
+        Bool.or_false, List.filterMap_cons, nameOf, List.filterMap_nil] at hok
+      rw [handleEach_single lay _ pre n choices _ hnd, hq] at hok
+      simp only [processOne] at hok
+      have hl : lookup n (prunedK (subKeys (names choices) cfg) (.str n) (settled h (.str n) cfg)) = lookup n cfg := by
+        rw [lookup_prunedK]
+        simp [isStr_self, lookup_settled_other h _ cfg n hnd']
+      rw [hl] at hok
+      rcases checkSettings_cases (pre ++ [n]) (lookup n cfg) with ⟨hc, hs⟩ | ⟨hc, _⟩
+      · rw [hc] at hok
+        simp only [] at hok
+        have hs' : okSec (lookup n (prunedK (subKeys (names choices) cfg) (.str n) (settled h (.str n) cfg))) = true := by
+          rw [hl]; exact hs
+        rw [mergeLayer_ok mode _ n _ hm hs', hl] at hok
         simp only [lookup_insert_same, secOf_sec] at hok
-        cases hin : handle lay fl (pre ++ [n]) q (merge (secOf (lookup n cfg)) (lay fl.mode q)) with
+        cases hin : handle lay ⟨true, single, mode⟩ (pre ++ [n]) q (merge (secOf (lookup n cfg)) (lay mode q)) with
         | error e => rw [hin] at hok; cases hok
         | ok inner1 =>
           rw [hin] at hok
           cases hok
-          refine ⟨n, q, inner1, rfl, hq, hin, ?_⟩
+          refine ⟨n, q, inner1, rfl, hq, hs, hin, ?_⟩
           unfold writeBack
           simp [isSecAt_insert, Val.isSec, insert_insert]
-      · simp [hv] at hok
-
+      · rw [hc] at hok
+        cases hok
+    · have hv' : validName (names choices) v = false := by simpa using hv
+      rw [getSub_fail_invalid h _ single mode pre cfg v hch hv'] at hok
+      cases hok
 
 /-! ## shape of a successful `sweep` at a parser whose subcommand is selected -/
 
@@ -720,24 +765,21 @@ theorem sweep_leaf (single : Bool) (i : Info) (ch : List (String × P)) (cfg : C
     sweep single (.node i .none ch) cfg = .ok cfg := by rw [sweep]
 
 mutual
-theorem sound_P : ∀ (p : P) (lay : Mode → P → Cfg) (fl : Flags) (pre : List String) (cfg c1 c2 : Cfg),
-    wf p = true → fl.fail = true → fl.mode ≠ .none → clean lay fl.mode p cfg = true →
-    handle lay fl pre p cfg = .ok c1 → sweep fl.single p c1 = .ok c2 → Sound lay fl.mode p cfg c2
-  | .node i .none ch, lay, fl, pre, cfg, c1, c2, _, _, _, _, h1, h2 => by
+theorem sound_P : ∀ (p : P) (lay : Mode → P → Cfg) (single : Bool) (mode : Mode) (pre : List String) (cfg c1 c2 : Cfg),
+    wf p = true → mode ≠ .none →
+    handle lay ⟨true, single, mode⟩ pre p cfg = .ok c1 → sweep single p c1 = .ok c2 → Sound lay mode p cfg c2
+  | .node i .none ch, lay, single, mode, pre, cfg, c1, c2, _, _, h1, h2 => by
     rw [handle_leaf] at h1
     rw [sweep_leaf] at h2
     cases h1; cases h2
     refine ⟨by rw [exactlyOne], by rw [complete], by rw [choiceOK]; trivial⟩
-  | .node i (some h) choices, lay, fl, pre, cfg, c1, c2, hwf, hf, hm, hcl, h1, h2 => by
+  | .node i (some h) choices, lay, single, mode, pre, cfg, c1, c2, hwf, hm, h1, h2 => by
     obtain ⟨hd, hne, hnd, hwl⟩ := wf_node i h choices hwf
-    rw [clean] at hcl
-    simp only [Bool.and_eq_true] at hcl
-    obtain ⟨hca, hci⟩ := hcl
-    rcases handle_node_shape lay fl pre i h choices cfg c1 hwf hca (by simp [hf]) hm h1 with
-      ⟨hch, _, hc1⟩ | ⟨n, q, inner1, hch, hq, hin, hc1⟩
+    rcases handle_node_shape lay single mode pre i h choices cfg c1 hwf hm h1 with
+      ⟨hch, _, hc1⟩ | ⟨n, q, inner1, hch, hq, _, hin, hc1⟩
     · -- nothing selected
       subst hc1
-      rw [sweep_node_none fl.single i h choices c1 hch] at h2
+      rw [sweep_node_none single i h choices c1 hch] at h2
       cases h2
       obtain ⟨hnone, hkeys⟩ := choice_none_facts h _ c1 hch
       have hall : (names choices).all (fun m => !isSecAt m c1) = true := by
@@ -781,11 +823,10 @@ theorem sound_P : ∀ (p : P) (lay : Mode → P → Cfg) (fl : Flags) (pre : Lis
         simp only [this, false_and, and_false, if_false]
         exact lookup_dest_settled h _ cfg _ hch
       have hsec1 : lookup n c1 = some (.sec inner1) := by subst hc1; exact lookup_insert_same _ _ _
-      obtain ⟨inner2, hin2, hc2⟩ := sweep_node_shape fl.single i h choices c1 c2 n q inner1 hdest1 hn0 hq hsec1 h2
+      obtain ⟨inner2, hin2, hc2⟩ := sweep_node_shape single i h choices c1 c2 n q inner1 hdest1 hn0 hq hsec1 h2
       -- the level below
       have hwq := wfL_find n q choices hwl hq
-      have hcq := cleanIn_find lay fl.mode n q cfg choices hci hq
-      have ih := sound_L choices n q hq lay fl (pre ++ [n]) _ inner1 inner2 hwq hf hm hcq hin hin2
+      have ih := sound_L choices n q hq lay single mode (pre ++ [n]) _ inner1 inner2 hwq hm hin hin2
       obtain ⟨ih1, ih2, ih3⟩ := ih
       subst hc1
       subst hc2
@@ -820,9 +861,9 @@ theorem sound_P : ∀ (p : P) (lay : Mode → P → Cfg) (fl : Flags) (pre : Lis
         simp only [hN, secOf_sec]
         exact ih3
 theorem sound_L : ∀ (choices : List (String × P)) (n : String) (q : P), findP n choices = some q →
-    ∀ (lay : Mode → P → Cfg) (fl : Flags) (pre : List String) (cfg c1 c2 : Cfg),
-    wf q = true → fl.fail = true → fl.mode ≠ .none → clean lay fl.mode q cfg = true →
-    handle lay fl pre q cfg = .ok c1 → sweep fl.single q c1 = .ok c2 → Sound lay fl.mode q cfg c2
+    ∀ (lay : Mode → P → Cfg) (single : Bool) (mode : Mode) (pre : List String) (cfg c1 c2 : Cfg),
+    wf q = true → mode ≠ .none →
+    handle lay ⟨true, single, mode⟩ pre q cfg = .ok c1 → sweep single q c1 = .ok c2 → Sound lay mode q cfg c2
   | [], n, q, h => by simp [findP] at h
   | (m, q') :: rest, n, q, h => by
     by_cases hm : m = n
